@@ -51,6 +51,22 @@ func (r *AnthropicRequest) Validate() error {
 	return nil
 }
 
+// normaliseNumbers turns the json.Number values a UseNumber decode leaves in the free-form
+// members back into float64 wherever that is exact (see preserveLargeNumbers)
+func (r *AnthropicRequest) normaliseNumbers() {
+	r.ToolChoice = preserveLargeNumbers(r.ToolChoice)
+	r.System = preserveLargeNumbers(r.System)
+	r.Thinking = preserveLargeNumbers(r.Thinking)
+	r.OutputConfig = preserveLargeNumbers(r.OutputConfig)
+	preserveLargeNumbers(r.Metadata)
+	for i := range r.Messages {
+		r.Messages[i].Content = preserveLargeNumbers(r.Messages[i].Content)
+	}
+	for i := range r.Tools {
+		preserveLargeNumbers(r.Tools[i].InputSchema)
+	}
+}
+
 // AnthropicMessage represents a message in the conversation
 // Content can be either a simple string or an array of content blocks
 type AnthropicMessage struct {
